@@ -356,7 +356,13 @@ fn c20(ctx: &Ctx, rep: &mut Report) {
             let mut others: Vec<String> = vec!["/a".into(), "/b".into(), "/a/b".into(), "/zz".into()];
             if let Some(a) = &a {
                 if let Some(NNode { kind: NKind::Link { target, .. }, .. }) = state.nodes.get(a) {
-                    others.push(ref_relative(target, &parent_of(a).unwrap_or_else(|| "/".into())));
+                    let rel = ref_relative(target, &parent_of(a).unwrap_or_else(|| "/".into()));
+                    // spellings that are the same path component-wise but not the text readlink returns
+                    others.push(format!("{}/", rel));
+                    others.push(format!("{}/.", rel));
+                    others.push(rel.replacen('/', "//", 1));
+                    others.push(format!("{}//", target));
+                    others.push(rel);
                     others.push(target.clone());
                     others.push(format!("/b{}", target)); // target is only a suffix of this
                     others.push(format!("/a{}", target));
